@@ -280,9 +280,21 @@ def refitLoop (cur : Nat → Aabb3 K) (margin : K) : Nat → Bool → Q K → Na
       let r := refitRound cur margin first q num
       refitLoop cur margin fuel false r.1 r.2
 
-/-- `Qbvh::refit(margin, workspace, aabb_builder)` → `(tree, num_changed)`.  Fuel `nodes.size + 2` passes. -/
-def refit (q : Q K) (cur : Nat → Aabb3 K) (margin : K) : Option (Q K × Nat) :=
+/-- `Qbvh::refit` as on the pinned tree: the two loops only, `root_aabb` is left as it was.  Fuel `nodes.size + 2` passes. -/
+def refitPinned (q : Q K) (cur : Nat → Aabb3 K) (margin : K) : Option (Q K × Nat) :=
   refitLoop cur margin (q.nodes.size + 2) true q 0
+
+/-- the correction (fixes/C08-refit-root-aabb.diff), last statement of `refit`:
+`if let Some(root) = self.nodes.first() { self.root_aabb = root.simd_aabb.to_merged_aabb(); }` — on the pinned tree
+`root_aabb` is written by `clear_and_rebuild` and `rebalance` only and is stale after insert / remove / refit. -/
+def syncRootAabb (q : Q K) : Q K :=
+  match q.nodes[0]? with
+  | some r => { q with rootAabb := mergedBox r.boxes }
+  | none => q
+
+/-- `Qbvh::refit(margin, workspace, aabb_builder)` → `(tree, num_changed)` (corrected: `root_aabb` follows the root node) -/
+def refit (q : Q K) (cur : Nat → Aabb3 K) (margin : K) : Option (Q K × Nat) :=
+  (refitPinned q cur margin).map fun r => (syncRootAabb r.1, r.2)
 
 /-! ## Histories -/
 
